@@ -188,11 +188,16 @@ def gen_ops(rng, topo, n_ops, rests):
         ops += gt_fill()
     elif pulse_devs and rng.random() < 0.12:
         ops += coil_test() + [["rest"]]
+    if has_lock and rng.random() < 0.3:
+        # an unservable request parked at the lock from the beginning: every later balls_available notification has to
+        # get past it to the devices behind it
+        ops.append(["ev", "ev_req_lock", 0.2])
     ops.append(["start"])
     if any(d["name"] == "bd_stage" for d in topo["devices"]) and rng.random() < 0.7:
         # a second ball is requested while the ball of the game start is on its way through the chain
-        ops.append(["ev", rng.choice(["ev_add_ball", "ev_req_stage"]), rng.choice([0.5, 1.0, 1.5, 2.0, 3.0, 4.0])])
-        ops.append(["wait", 25.0])
+        ops.append(["ev", rng.choice(["ev_add_ball", "ev_req_stage"]),
+                    rng.choice([0.5, 1.0, 1.5, 2.0, 3.0, 4.0, 6.0, 8.0])])
+        ops.append(["wait", 45.0])
     if "multiball_lock" in logic:
         kinds_extra = ["ev:ev_mb2_start"]
         if rng.random() < 0.7:
@@ -206,7 +211,7 @@ def gen_ops(rng, topo, n_ops, rests):
         kinds_extra = []
     kinds = ["drain"] * 6 + ["pf"] * 2 + ["wait"] * 2 + ["start"] + ["ev:ev_add_ball"] + kinds_extra
     if has_lock:
-        kinds += ["lock"] * 4
+        kinds += ["lock"] * 4 + ["ev:ev_req_lock"]
     if "bd_vuk" in names:
         kinds += ["vuk"] * 3
     if "bd_plunger" in names and "bd_stage" in names:
@@ -311,13 +316,15 @@ def gen_phys(rng, topo, fault_level):
             phys["holds"][d["name"]] = [rng.choice(durations) for _ in range(rng.randint(3, 10))]
     if any(d["ejector"] == "mech" for d in topo["devices"]) and rng.random() < 0.5:
         phys["plunge_delay"] = [5.0, 40.0]
+    for d in topo["devices"]:
+        if d["name"] == "bd_plunger" and d["target"] == "bd_stage" and rng.random() < (0.8 if fault_level else 0.5):
+            # three-device chain: the launcher's kicks towards the staging device are weak (ball falls back) or slow
+            phys["faults"][d["name"]] = [rng.choice(["back_late", "back_early", "back_late", "late"])] + \
+                [rng.choice(["back_early", "back_late", "late", "ok", "ok"]) for _ in range(rng.randint(1, 5))]
     if fault_level > 0:
         for d in topo["devices"]:
-            if d["name"] == "bd_plunger" and d["target"] == "bd_stage" and rng.random() < 0.7:
-                # the launcher's kick towards the staging device is weak: ball falls back / arrives late
-                phys["faults"][d["name"]] = [rng.choice(["back_early", "back_late", "late", "ok"])
-                                             for _ in range(rng.randint(2, 6))]
-                continue
+            if d["name"] == "bd_plunger" and d["target"] == "bd_stage":
+                continue        # handled below
             if d["name"] == "bd_plunger" and d["slots"] == 2 and rng.random() < 0.6:
                 # the launcher's first kicks are too weak / the ball falls back
                 phys["faults"][d["name"]] = [rng.choice(["weak", "back_early"]) for _ in range(rng.randint(1, 2))] + \
